@@ -117,11 +117,14 @@ impl Envelope {
     /// assert!(document_root.confirm_contains_set(&target_set, &proof));
     /// ```
     pub fn proof_contains_set(&self, target: &HashSet<Digest, RandomState>) -> Option<Envelope> {
-        let reveal_set = self.reveal_set_of_set(target);
+        let (reveal_set, interior) = self.reveal_set_of_set(target);
         if !target.is_subset(&reveal_set) {
             return None;
         }
-        Some(self.elide_revealing_set(&reveal_set).elide_removing_set(target))
+        // A target that contains another target has to stay revealed, or the inner
+        // target could not be found in the proof; only the innermost targets are elided.
+        let removable: HashSet<Digest> = target.difference(&interior).cloned().collect();
+        Some(self.elide_revealing_set(&reveal_set).elide_removing_set(&removable))
     }
 
     /// Creates a proof that this envelope includes the single target element.
@@ -255,10 +258,11 @@ impl Envelope {
     /// Builds a set of all digests needed to reveal the target set.
     ///
     /// This collects all digests in the path from the envelope's root to each target element.
-    fn reveal_set_of_set(&self, target: &HashSet<Digest>) -> HashSet<Digest> {
+    fn reveal_set_of_set(&self, target: &HashSet<Digest>) -> (HashSet<Digest>, HashSet<Digest>) {
         let mut result = HashSet::new();
-        self.reveal_sets(target, &HashSet::new(), &mut result);
-        result
+        let mut interior = HashSet::new();
+        self.reveal_sets(target, &HashSet::new(), &mut result, &mut interior);
+        (result, interior)
     }
 
     /// Checks if this envelope contains all elements in the target set.
@@ -273,7 +277,11 @@ impl Envelope {
     /// Recursively traverses the envelope to collect all digests needed to reveal the target set.
     ///
     /// Builds the set of digests forming the path from the root to each target element.
-    fn reveal_sets(&self, target: &HashSet<Digest>, current: &HashSet<Digest>, result: &mut HashSet<Digest>) {
+    fn reveal_sets(&self, target: &HashSet<Digest>, current: &HashSet<Digest>, result: &mut HashSet<Digest>, interior: &mut HashSet<Digest>) {
+        if target.contains(&self.digest()) {
+            // everything above a target is interior to the proof
+            interior.extend(current.iter().cloned());
+        }
         let mut current = current.clone();
         current.insert(self.digest().into_owned());
 
@@ -283,17 +291,17 @@ impl Envelope {
 
         match self.case() {
             EnvelopeCase::Node { subject, assertions, .. } => {
-                subject.reveal_sets(target, &current, result);
+                subject.reveal_sets(target, &current, result, interior);
                 for assertion in assertions {
-                    assertion.reveal_sets(target, &current, result);
+                    assertion.reveal_sets(target, &current, result, interior);
                 }
             }
             EnvelopeCase::Wrapped { envelope, .. } => {
-                envelope.reveal_sets(target, &current, result);
+                envelope.reveal_sets(target, &current, result, interior);
             }
             EnvelopeCase::Assertion(assertion) => {
-                assertion.predicate().reveal_sets(target, &current, result);
-                assertion.object().reveal_sets(target, &current, result);
+                assertion.predicate().reveal_sets(target, &current, result, interior);
+                assertion.object().reveal_sets(target, &current, result, interior);
             }
             _ => {}
         }
